@@ -43,6 +43,16 @@ func c01Event(t *rapid.T) (*mocrelay.Event, gen.Key) {
 		e.Tags = append(e.Tags, tag)
 	}
 	e.Content = gen.UnicodeString(40).Draw(t, "content")
+	if rapid.IntRange(0, 24).Draw(t, "long?") == 0 {
+		// a long run of characters that need no escaping (base64 blob, long CJK line)
+		unit := rapid.SampledFrom([]string{"QUJD", "漢字", "x"}).Draw(t, "longunit")
+		long := strings.Repeat(unit, rapid.IntRange(2000, 9000).Draw(t, "longlen"))
+		if rapid.Bool().Draw(t, "longintag") {
+			e.Tags = append(e.Tags, mocrelay.Tag{"imeta", long})
+		} else {
+			e.Content += long
+		}
+	}
 	gen.Sign(e, key)
 	return e, key
 }
